@@ -109,6 +109,15 @@ class Executor(ExprMixin, StmtMixin, Engine):
     def exec_stmt(self, node, st):
         self.cur_line = getattr(node, 'lineno', self.cur_line)
         c = self.m.contracts.get(self.cur_fn_stack[0]) if len(self.cur_fn_stack) == 1 else None
+        if c is not None and getattr(c, 'ghost_before', None) and not isinstance(node, (ast.If, ast.While, ast.For, ast.Try)):
+            pre = c.ghost_before.get(ast.unparse(node))
+            if pre is not None:
+                self.ghost_hits = getattr(self, 'ghost_hits', set()) | {'before:' + ast.unparse(node)}
+                for gi, (gname, expr) in enumerate(pre):
+                    e2, props = clause(expr)
+                    self.clause_props = props
+                    self.prove(st, self.spec(e2, st, {}, self.fn_old), 'ghost-assert', self.cur_line, 'before.%d' % gi, text=e2)
+                    self.clause_props = None
         upd = None
         if c is not None and c.ghost_after and not isinstance(node, (ast.If, ast.While, ast.For, ast.Try)):
             text = ast.unparse(node)
@@ -134,7 +143,8 @@ class Executor(ExprMixin, StmtMixin, Engine):
                     if gname == '__assert__':
                         e2, props = clause(expr)
                         self.clause_props = props
-                        self.prove(s1, self.spec(e2, s1, {}, self.fn_old), 'ghost-assert', self.cur_line, text=e2)
+                        self.prove(s1, self.spec(e2, s1, {}, self.fn_old), 'ghost-assert', self.cur_line,
+                                   'after.%d' % upd.index((gname, expr)), text=e2)
                         self.clause_props = None
                         continue
                     v = self.spec_val(expr, s1, {}, self.fn_old)
@@ -1061,6 +1071,10 @@ class Executor(ExprMixin, StmtMixin, Engine):
                            stable_name='%s:post:%d' % (key.split(':')[1], j))
                 self.clause_props = None
             # frame for globals not in modifies: proved at each write; nothing to do here
+        for pat in getattr(c, 'ghost_before', None) or {}:
+            if 'before:' + pat not in self.ghost_hits:
+                self.results.append(ObResult(key.split(':')[1] + ':ghost-anchor', 'resolve', key, 0, 'undecided', 'none', 0,
+                                             'ghost anchor statement not found / not reached: %s' % pat, prop=c.prop))
         for pat in c.ghost_after:
             if pat not in self.ghost_hits:
                 self.results.append(ObResult(key.split(':')[1] + ':ghost-anchor', 'resolve', key, 0, 'undecided', 'none', 0,
